@@ -412,6 +412,7 @@ func runC17(c *Ctx) {
 
 // pathAvoidingFromBlock: path from the start of block b to instruction target avoiding instructions matched by avoid.
 func pathAvoidingFromBlock(b *ssa.BasicBlock, target ssa.Instruction, avoid func(ssa.Instruction) bool) bool {
+	avoid = liftMust(avoid, 1) // a helper that does it on all of its paths counts
 	type item struct {
 		b   *ssa.BasicBlock
 		idx int
@@ -446,6 +447,7 @@ func pathAvoidingFromBlock(b *ssa.BasicBlock, target ssa.Instruction, avoid func
 }
 
 func exitReachableAvoidingFromBlock(b *ssa.BasicBlock, pass func(ssa.Instruction) bool) (ssa.Instruction, bool) {
+	pass = liftMust(pass, 1) // a helper that does it on all of its paths counts
 	type item struct {
 		b   *ssa.BasicBlock
 		idx int
